@@ -374,26 +374,49 @@ def _proj_of(nodes):
 
 
 def replay(doc: dict) -> int:
+    """Re-record the operations of save for the same pair of registries on the current tree, enumerate the
+    crash states again and report those at the same crash point (known findings are named, not reported)."""
     common.enter_scratch()
     workdir = tlc.scratch()
     loop = asyncio.new_event_loop()
     try:
+        tlc.stage(workdir)
         rec = record_ops(doc["old"], doc["new"], workdir)
         print("operations of save now:", [[o["op"], o["path"] or o["fd"], o["len"]] for o in rec["ops"]])
-        d = tempfile.mkdtemp(prefix="crash-state-", dir=workdir)
-        try:
-            materialise(doc["crash_state"], rec, d)
-        except BaseException as err:  # noqa: BLE001
-            print("the recorded crash state does not exist for the current operation sequence:", type(err).__name__)
-            return 0
-        status, loaded = real_load(loop, os.path.join(d, "live"))
+        newp = _proj_of(doc["new"])
         oldp = _proj_of(doc["old"]) if doc["old"] is not None else None
-        bad = classify(doc["crash_state"], rec, status, loaded, oldp, _proj_of(doc["new"]))
-        print("load of the crash state ->", status, "=>", bad or "old/new registry")
-        if bad:
-            print(f"VIOLATION property=C15 replay=(this file)")
+        bad_ret = complete_on_return(loop, rec, newp, workdir)
+        if bad_ret:
+            print("save complete on return:", bad_ret)
+            print("VIOLATION property=C15 replay=(this file)")
             return 1
-        return 0
+        states, _ = crash_states(rec, 1, workdir)
+        want = (doc["crash_state"].get("pc"), doc["crash_state"].get("part"))
+        rc = 0
+        seen = 0
+        for st in states:
+            if (st["pc"], st["part"]) != want and want[0] != 0:
+                continue
+            seen += 1
+            d = tempfile.mkdtemp(prefix="crash-state-", dir=workdir)
+            materialise(st, rec, d)
+            status, loaded = real_load(loop, os.path.join(d, "live"))
+            bad = classify(st, rec, status, loaded, oldp, newp)
+            if not bad:
+                print(f"crash point {want}: loads to the old or the new registry")
+                continue
+            sig = signature(st, rec, bad)
+            known = [k for k in common.known_findings("C15") if all(sig.get(a) == b for a, b in k.get("signature", {}).items())]
+            if known:
+                print(f"crash point {want}: {bad} - KNOWN-FINDING: {known[0]['description'][:120]}")
+            else:
+                print(f"crash point {want}: load gives {bad}; live file: {sig['live']}")
+                rc = 1
+        if not seen:
+            print(f"crash point {want} does not exist in the current operation sequence")
+        if rc:
+            print("VIOLATION property=C15 replay=(this file)")
+        return rc
     finally:
         loop.close()
         shutil.rmtree(workdir, ignore_errors=True)
